@@ -9,7 +9,7 @@ import Tengo.Model.Limits
 * `alloc_budget`, `alloc_monotone`, `alloc_unlimited`: for EVERY machine and all fuel, the counter
   wrapper of `VM.Run`/`VM.run` (`runWithBudget`) is in lock-step with the counter-free run until the
   `(N+1)`-th tracked allocation is attempted and influences nothing else
-* `len_checked_ops`, `fmtbuf_bounded`: the modelled length guards
+* `len_checked_ops`, `len_checked_ops2`, `fmtbuf_bounded`: the modelled length guards
 * `depth_bounded`, `depth_lockstep`: the frame counter
 -/
 namespace Tengo.Props.C06
@@ -302,6 +302,47 @@ theorem len_checked_ops (L : Nat) (a b v : Bytes) (n : Int) (lo hi : Nat) :
     · cases h
   · intro h; unfold sliceVal; simp; omega
 
+/-- **len_checked_ops2.** The two producers repaired after O13 / O12. `type_name` returns the name within
+the limit, or the limit error exactly when the name does not fit. `Map.IndexSet` keys the map by the text of
+the index: a string index is stored as it is (never an error), a key made by converting any other index is
+within the limit, or the limit error is raised exactly when that text does not fit; so if every existing
+string value is within the limit, so is every key. -/
+theorem len_checked_ops2 (L : Nat) (isStr : Bool) (v : Bytes) :
+    (∀ r, typeNameResult L v = .ok r → r.length ≤ L ∧ r = v) ∧
+    (∀ e, typeNameResult L v = .error e → e = .stringLimit ∧ L < v.length) ∧
+    (∀ r, mapKeyOfIndex L isStr v = .ok r → r = v ∧ (isStr = false → r.length ≤ L)) ∧
+    (∀ e, mapKeyOfIndex L isStr v = .error e → e = .stringLimit ∧ isStr = false ∧ L < v.length) ∧
+    (isStr = true → mapKeyOfIndex L isStr v = .ok v) ∧
+    ((isStr = true → v.length ≤ L) → ∀ r, mapKeyOfIndex L isStr v = .ok r → r.length ≤ L) := by
+  refine ⟨?_, ?_, ?_, ?_, ?_, ?_⟩
+  · intro r h; unfold typeNameResult at h; split at h
+    · cases h
+    · cases h; exact ⟨by omega, rfl⟩
+  · intro e h; unfold typeNameResult at h; split at h
+    · cases h; exact ⟨rfl, by omega⟩
+    · cases h
+  · intro r h; unfold mapKeyOfIndex at h; split at h
+    · cases h
+    · next hn =>
+      cases h
+      refine ⟨rfl, ?_⟩
+      intro hs; subst hs; simp at hn; omega
+  · intro e h; unfold mapKeyOfIndex at h; split at h
+    · next hc =>
+      cases h
+      cases isStr
+      · simp at hc; exact ⟨rfl, rfl, by omega⟩
+      · simp at hc
+    · cases h
+  · intro hs; subst hs; simp [mapKeyOfIndex]
+  · intro hv r h; unfold mapKeyOfIndex at h; split at h
+    · cases h
+    · next hn =>
+      cases h
+      cases isStr
+      · simp at hn; omega
+      · exact hv rfl
+
 theorem bufStep_bounded (L : Nat) (buf : Bytes) (op : BufOp) (hb : buf.length ≤ L) :
     (∀ r, bufStep L buf op = .ok r → r.length ≤ L ∧ buf.length ≤ r.length) ∧
     (∀ e, bufStep L buf op = .error e → e = .stringLimit) := by
@@ -383,6 +424,11 @@ example : strAdd 8 [97, 98, 99, 100] [101, 102, 103, 104, 105] = .error .stringL
 example : builtinBytesN 8 8 = .ok (List.replicate 8 0) := rfl
 example : builtinBytesN 8 9 = .error .bytesLimit := rfl
 example : builtinBytesN 8 (-1) = .error .goPanic := rfl
+example : typeNameResult 8 [105, 110, 116] = .ok [105, 110, 116] := rfl
+example : typeNameResult 2 [105, 110, 116] = .error .stringLimit := rfl
+example : mapKeyOfIndex 2 false [49, 50, 51] = .error .stringLimit := rfl
+example : mapKeyOfIndex 3 false [49, 50, 51] = .ok [49, 50, 51] := rfl
+example : mapKeyOfIndex 2 true [49, 50, 51] = .ok [49, 50, 51] := rfl
 example : bufRun 4 [] [.write [1, 2], .byte 3, .pad 1 32] = .ok [1, 2, 3, 32] := rfl
 example : bufRun 4 [] [.write [1, 2], .byte 3, .pad 2 32] = .error .stringLimit := rfl
 
